@@ -624,9 +624,12 @@ Proof.
 Qed.
 
 (* a service write: exactly one frame, tagged with that connection's addresses; state unchanged *)
-Lemma write_tagged s c p :
+Lemma write_then_refill_eq p q : write_then_refill p q = p.
+Proof. reflexivity. Qed.
+
+Lemma write_tagged s c p q :
   s_alive s = true ->
-  step ideal_wire s (AWrite c p) = (s, RNone, [MData (vc_l (conn_at s c)) (vc_r (conn_at s c)) p]).
+  step ideal_wire s (AWrite c p q) = (s, RNone, [MData (vc_l (conn_at s c)) (vc_r (conn_at s c)) p]).
 Proof. intros Ha. unfold step. rewrite Ha. reflexivity. Qed.
 
 (* ---- conservation: routed bytes = bytes read ++ bytes still buffered ---- *)
@@ -748,7 +751,7 @@ Lemma step_conserves s a c :
   let '(s', r, _) := step wire s a in
   vc_buf (conn_at s c) ++ step_recv s a c = step_read a r c ++ vc_buf (conn_at s' c).
 Proof.
-  destruct a as [m|c' n|c' n m|c' p|c'|l r p|]; cbn [step step_recv].
+  destruct a as [m|c' n|c' n m|c' p q|c'|l r p q|]; cbn [step step_recv].
   - pose proof (recv_msg_buf s m c) as H. destruct (recv_msg wire s m) as [[[s' r] fs] sg].
     cbn [step_read]. rewrite H. reflexivity.
   - pose proof (vc_read_buf s c' n c) as H. destruct (vc_read s c' n) as [s' r].
@@ -864,7 +867,7 @@ Lemma step_closed wire s a c :
   still_closed s (fst (fst (step wire s a))) c.
 Proof.
   intros Hr Hc. assert (Hsame : still_closed s s c) by (split; [exact Hc|lia]).
-  destruct a as [m|c' n|c' n m|c' p|c'|l r p|]; cbn [step].
+  destruct a as [m|c' n|c' n m|c' p q|c'|l r p q|]; cbn [step].
   - pose proof (recv_msg_closed wire s m c Hr Hc) as H.
     destruct (recv_msg wire s m) as [[[s' r] fs] sg]. exact H.
   - pose proof (vc_read_closed s c' n c Hc) as H. destruct (vc_read s c' n) as [s' r]. exact H.
@@ -1132,8 +1135,8 @@ Qed.
 Definition q_act (s : sess) (a : act) : Prop :=
   match a with
   | ASend m | APark _ _ m => q_msg m
-  | AWrite c p => (c < length (s_conns s))%nat /\ zlen p <= 65000
-  | AUdpW l r p => q_addr l /\ q_addr r /\ zlen p <= 65000
+  | AWrite c p _ => (c < length (s_conns s))%nat /\ zlen p <= 65000
+  | AUdpW l r p _ => q_addr l /\ q_addr r /\ zlen p <= 65000
   | ARead _ _ | AClose _ | ADisc => True
   end.
 
@@ -1141,7 +1144,7 @@ Lemma step_q s a :
   qinv s -> q_act s a ->
   step transport s a = step ideal_wire s a /\ qinv (fst (fst (step ideal_wire s a))).
 Proof.
-  intros Q Ha. destruct a as [m|c n|c n m|c p|c|l r p|]; cbn [step q_act] in *.
+  intros Q Ha. destruct a as [m|c n|c n m|c p q0|c|l r p q0|]; cbn [step q_act] in *.
   - destruct (recv_msg_q s m Q Ha) as [E H]. rewrite E.
     destruct (recv_msg ideal_wire s m) as [[[s' r] fs] sg]. destruct H as [H1 H2]. rewrite H2.
     split; [reflexivity|exact H1].
@@ -1190,3 +1193,68 @@ Qed.
 
 Lemma qinv0 : qinv sess0.
 Proof. intros c Hc. cbn in Hc. lia. Qed.
+
+(* ================================================================== *)
+(* G. buffer ownership on the outgoing path: what the agent receives is what the buffer
+      held when Write was called, whatever the service does with the buffer afterwards and
+      whenever the sender goroutine gets to marshal the message *)
+Definition is_val (x : bool * addr * addr * pay) : Prop := exists b, snd x = PVal b.
+
+Lemma oframe_val h h' x : is_val x -> oframe h x = oframe h' x.
+Proof. destruct x as [[[u l] r] p]. intros [b Hb]. cbn [snd] in Hb. subst p. reflexivity. Qed.
+
+Definition ostep_new (s : ost) (e : oev) : list msg :=
+  match e with
+  | OWrite l r i => [MData l r (nth i (o_heap s) [])]
+  | OUdpW l r i => [MUdp l r (nth i (o_heap s) [])]
+  | _ => []
+  end.
+
+Lemma ostep_inv s e h' :
+  Forall is_val (o_q s) ->
+  o_sent (ostep s e) ++ map (oframe h') (o_q (ostep s e)) =
+    (o_sent s ++ map (oframe h') (o_q s)) ++ ostep_new s e /\
+  Forall is_val (o_q (ostep s e)) /\
+  o_heap (ostep s e) = match e with OFill i q => upd (o_heap s) i q | _ => o_heap s end.
+Proof.
+  intros V. destruct e as [l r i|l r i|i q|]; cbn [ostep ostep_new o_sent o_q o_heap].
+  - rewrite map_app, app_assoc. cbn [map oframe capture resolve]. repeat split.
+    apply Forall_app; split; [exact V|]. constructor; [eexists; reflexivity|constructor].
+  - rewrite map_app, app_assoc. cbn [map oframe capture resolve]. repeat split.
+    apply Forall_app; split; [exact V|]. constructor; [eexists; reflexivity|constructor].
+  - rewrite app_nil_r. repeat split. exact V.
+  - rewrite app_nil_r. destruct s as [hp qq sent]. cbn [o_sent o_q o_heap] in *.
+    destruct qq as [|x rest]; cbn [o_sent o_q o_heap].
+    + repeat split. constructor.
+    + inversion V as [|? ? Hx Hr]; subst. cbn [map]. rewrite <- app_assoc. cbn [app].
+      rewrite (oframe_val hp h' x Hx). repeat split. exact Hr.
+Qed.
+
+Lemma orun_inv evs : forall s h',
+  Forall is_val (o_q s) ->
+  o_sent (orun s evs) ++ map (oframe h') (o_q (orun s evs)) =
+    (o_sent s ++ map (oframe h') (o_q s)) ++ written (o_heap s) evs /\
+  Forall is_val (o_q (orun s evs)).
+Proof.
+  induction evs as [|e evs IH]; intros s h' V; cbn [orun fold_left written].
+  - rewrite app_nil_r. split; [reflexivity|exact V].
+  - fold (orun (ostep s e) evs). destruct (ostep_inv s e h' V) as (E1 & V1 & Hh).
+    destruct (IH (ostep s e) h' V1) as (E2 & V2). split; [|exact V2].
+    rewrite E2, E1, Hh, <- app_assoc. f_equal.
+    destruct e; cbn [ostep_new written app]; reflexivity.
+Qed.
+
+(* from an empty queue, for every schedule of writes, refills and sender steps: the frames
+   sent so far followed by the frames still queued are exactly the written frames, and once
+   the queue is drained the agent has received exactly those *)
+Lemma sent_is_written heap evs h' :
+  let s := orun (mkO heap [] []) evs in
+  o_sent s ++ map (oframe h') (o_q s) = written heap evs.
+Proof. destruct (orun_inv evs (mkO heap [] []) h' (Forall_nil _)) as [E _]. exact E. Qed.
+
+Lemma drained_is_written heap evs :
+  o_q (orun (mkO heap [] []) evs) = [] -> o_sent (orun (mkO heap [] []) evs) = written heap evs.
+Proof.
+  intros Hq. pose proof (sent_is_written heap evs []) as H. cbn zeta in H.
+  rewrite Hq in H. cbn [map] in H. now rewrite app_nil_r in H.
+Qed.
